@@ -28,7 +28,8 @@ CONST_METRICS = (
     "none", "identity", "scaled", "diag_array", "diag", "dense_array", "dense", "chol_lower", "chol_upper", "eig",
     "block", "lowrank_plus", "lowrank_minus", "softabs_const", "product", "derived",
 )
-CONSTRAINTS = ("hyperplane", "hyperplanes2", "sphere", "quadric", "two_quadrics", "arctan_sphere", "arctan_quadric", "sine")
+CONSTRAINTS = ("hyperplane", "hyperplanes2", "sphere", "quadric", "two_quadrics", "arctan_sphere", "arctan_quadric", "sine",
+               "log_sphere", "log_quadric", "exp_sphere", "exp_quadric")
 
 
 def _rng(*keys) -> np.random.Generator:
@@ -204,12 +205,16 @@ class Constraint:
     """c_i(q) = phi(g_i(q)),  g_i(q) = q'B_i q + d_i.q - e_i  (B_i symmetric; hyperplane: B = 0; sphere: B = I, d = 0).
 
     phi is the identity, or for the ``arctan_*`` kinds the strongly non-linear phi(x) = arctan(5 x) / 5 (same zero set,
-    saturating away from it, so that Newton projections overshoot and line searches really backtrack).
+    saturating away from it, so that Newton projections overshoot and line searches really backtrack), for the ``log_*``
+    kinds phi(x) = log(1 + x) (restricted domain: NaN for x <= -1, i.e. well inside the surface) and for the ``exp_*``
+    kinds phi(x) = expm1(6 x) / 6 (explosive growth outside the surface: residuals beyond any divergence tolerance, up to
+    overflow, after one large step).
     """
 
     def __init__(self, kind: str, dim: int, rng) -> None:
         self.kind, self.dim = kind, dim
         self.arctan = kind.startswith("arctan_")
+        self.phi = kind.split("_")[0] if kind.split("_")[0] in ("arctan", "log", "exp") else None
         self.sine = kind == "sine"
         if self.sine:
             # wavy curve / sheet q_1 = A sin(w q_0): a retraction along a fixed direction can land on another branch
@@ -219,7 +224,7 @@ class Constraint:
             q0[1] = self.A_s * np.sin(self.w_s * q0[0])
             self.q0 = q0
             return
-        base = kind[len("arctan_"):] if self.arctan else kind
+        base = kind[len(self.phi) + 1:] if self.phi else kind
         if base == "hyperplane":
             n = 1
         elif base in ("hyperplanes2", "two_quadrics"):
@@ -260,15 +265,25 @@ class Constraint:
             return j
         return 2 * np.einsum("ijk,k->ij", self.B, q) + self.d
 
+    def _phi(self, g):
+        """(phi, phi', phi'') at g."""
+        with np.errstate(all="ignore"):
+            if self.phi == "arctan":
+                return np.arctan(5 * g) / 5, 1 / (1 + 25 * g**2), -50 * g / (1 + 25 * g**2) ** 2
+            if self.phi == "log":
+                return np.log1p(g), 1 / (1 + g), -1 / (1 + g) ** 2
+            if self.phi == "exp":
+                return np.expm1(6 * g) / 6, np.exp(6 * g), 6 * np.exp(6 * g)
+        return g, np.ones_like(g), np.zeros_like(g)
+
     def c(self, q):
-        g = self.g(q)
-        return np.arctan(5 * g) / 5 if self.arctan else g
+        return self._phi(self.g(q))[0]
 
     def jac(self, q):
         gj = self.gjac(q)
-        if not self.arctan:
+        if not self.phi:
             return gj
-        return gj / (1 + 25 * self.g(q) ** 2)[:, None]
+        return gj * self._phi(self.g(q))[1][:, None]
 
     def hess(self, q=None):
         """(n, dim, dim) second derivatives of c at q (constant for the polynomial kinds)."""
@@ -276,11 +291,10 @@ class Constraint:
             h = np.zeros((1, self.dim, self.dim))
             h[0, 0, 0] = self.A_s * self.w_s**2 * np.sin(self.w_s * q[0])
             return h
-        if not self.arctan:
+        if not self.phi:
             return 2 * self.B
         g, gj = self.g(q), self.gjac(q)
-        d1 = 1 / (1 + 25 * g**2)
-        d2 = -50 * g / (1 + 25 * g**2) ** 2
+        _, d1, d2 = self._phi(g)
         return d1[:, None, None] * 2 * self.B + d2[:, None, None] * np.einsum("ij,ik->ijk", gj, gj)
 
     def mhp(self, q):
@@ -293,6 +307,8 @@ class Constraint:
         j0 = self.jac(q)
         for _ in range(max_iter):
             cv = self.c(q)
+            if not np.all(np.isfinite(cv)):
+                raise FloatingPointError("harness projection left the domain of the constraint")
             if np.max(np.abs(cv)) < tol:
                 return q
             j = self.jac(q)
